@@ -609,6 +609,18 @@ theorem rename_lite (ext : Nat → Nat) (u : Int) (dvars : List (String × Strin
     (h : Lite ext m) : LiteOut ext (rename u dvars m) :=
   tryToReorder_lite ext _ (renameBody_lite ext u dvars) m h
 
+/-- `BDD.let(definitions, u)` -/
+theorem letOp_lite (ext : Nat → Nat) (d : LetArg) (u : Int) (m : Mgr) (h : Lite ext m) :
+    LiteOut ext (letOp d u m) := by
+  unfold letOp
+  split
+  · exact h.ok _
+  · exact h.ok _
+  · exact h.ok _
+  · exact cofactor_lite ext _ _ m h
+  · exact compose_lite ext _ _ m h
+  · exact rename_lite ext _ _ m h
+
 /-- the body of `BDD.var` -/
 def varBody (name : String) : M Int := do
   let m ← M.get
